@@ -529,6 +529,36 @@ func c14Tail(c *Ctx) {
 		if n < 2 {
 			c.und("tail-tolerance", "recoverLatestWALTail", p.Pos(fnPos(f)), "repair calls not found")
 		}
+		// a torn record is repaired on every path: each return under IsInvalidRecord(err) is the result of the repair call (a torn
+		// first record left in place is tolerated only while the file is the newest one — after the next flush every start fails)
+		k := 0
+		for _, ret := range returnsOf(f) {
+			d := p.mustHoldAt(ret.Ret)
+			if inv, _ := everyDisjunctHas(d, []string{"IsInvalidRecord("}); !inv || len(d) == 0 {
+				continue
+			}
+			if neg, _ := everyDisjunctHas(d, []string{"^!", "IsInvalidRecord("}); neg {
+				continue
+			}
+			k++
+			okr := false
+			if len(ret.Results) == 1 {
+				if call, isCall := ret.Results[0].(*ssa.Call); isCall && call.Call.StaticCallee() != nil && strings.HasPrefix(call.Call.StaticCallee().Name(), "repairWALTail") {
+					okr = true
+				}
+			}
+			if !okr {
+				for _, s := range sitesOf(f) {
+					if strings.HasSuffix(s.CalleeName(), "repairWALTail") && dominatesInstr(s.Instr, ret.Ret) {
+						okr = true
+					}
+				}
+			}
+			c.check(okr, "tail-tolerance", fmt.Sprintf("recoverLatestWALTail: invalid record ⇒ repaired (return #%d)", k), p.Pos(posOf(ret.Ret, f)), "a torn record always leads to the truncating repair", "a torn record is left in the file on this path: it is tolerated only while the file is the newest log; after the next flush every start fails on it")
+		}
+		if k == 0 {
+			c.und("tail-tolerance", "recoverLatestWALTail: invalid record arm", p.Pos(fnPos(f)), "no return under IsInvalidRecord(err) found")
+		}
 	} else {
 		c.und("tail-tolerance", "recoverLatestWALTail", "", "anchor not found")
 	}
@@ -651,6 +681,87 @@ func c14CleanupAndSeq(c *Ctx) {
 		})
 		if n == 0 {
 			c.und("seq-per-record", "flushLocked", p.Pos(fnPos(f)), "store to nextBatchSeqNum not found")
+		}
+		// … and on every path on which the batch reached the log: from the append, each return that is not the
+		// "error ∧ not committed" arm passes the store (a later failure — cleanup, watermark — must not leave the counter behind:
+		// the next batch would reuse the numbers and be dropped by the reader on reopen)
+		var app ssa.Instruction
+		for _, s := range sitesOf(f) {
+			if strings.HasSuffix(s.CalleeName(), "appendSync") {
+				app = s.Instr
+			}
+		}
+		if app == nil {
+			c.und("seq-per-record", "flushLocked: append", p.Pos(fnPos(f)), "appendSync call not found")
+		} else {
+			pass := map[*ssa.BasicBlock]bool{}
+			allInstrs(f, func(in ssa.Instruction) {
+				if st, ok := in.(*ssa.Store); ok {
+					if fa, ok := st.Addr.(*ssa.FieldAddr); ok && fieldName(fa.X.Type(), fa.Field) == "nextBatchSeqNum" {
+						pass[in.Block()] = true
+					}
+				}
+			})
+			// same-package helpers that always advance the counter
+			for _, s := range sitesOf(f) {
+				if s.Callee != nil && pkgRelOf(s.Callee) == pkgRelOf(f) && len(s.Callee.Blocks) > 0 {
+					always := false
+					hp := map[*ssa.BasicBlock]bool{}
+					allInstrsOne(s.Callee, func(in ssa.Instruction) {
+						if st, ok := in.(*ssa.Store); ok {
+							if fa, ok := st.Addr.(*ssa.FieldAddr); ok && fieldName(fa.X.Type(), fa.Field) == "nextBatchSeqNum" {
+								hp[in.Block()] = true
+							}
+						}
+					})
+					if len(hp) > 0 {
+						always = true
+						seen := map[*ssa.BasicBlock]bool{}
+						q := []*ssa.BasicBlock{s.Callee.Blocks[0]}
+						for len(q) > 0 {
+							b := q[0]
+							q = q[1:]
+							if seen[b] || hp[b] {
+								continue
+							}
+							seen[b] = true
+							if exitKind(b) == "return" {
+								always = false
+							}
+							q = append(q, b.Succs...)
+						}
+					}
+					if always {
+						pass[s.Block()] = true
+					}
+				}
+			}
+			bad := ""
+			seen := map[*ssa.BasicBlock]bool{}
+			var q []*ssa.BasicBlock
+			if pass[app.Block()] {
+				// store in the block of the append itself (after it): everything passes
+			} else {
+				q = append(q, app.Block().Succs...)
+			}
+			for len(q) > 0 {
+				b := q[0]
+				q = q[1:]
+				if seen[b] || pass[b] {
+					continue
+				}
+				seen[b] = true
+				if exitKind(b) == "return" {
+					ret := b.Instrs[len(b.Instrs)-1]
+					d := p.mustHoldAt(ret)
+					if nc, _ := everyDisjunctHas(d, []string{"^!", ".committed"}); nc && len(d) > 0 {
+						continue // the batch did not reach the log
+					}
+					bad = p.Pos(posOf(ret, f))
+				}
+				q = append(q, b.Succs...)
+			}
+			c.check(bad == "", "seq-per-record", "flushLocked: counter advanced whenever the batch was appended", p.Pos(app.Pos()), "every return after a committed append passes the store to nextBatchSeqNum", "the return at "+bad+" is reached after the batch was appended to the log without advancing nextBatchSeqNum: the next batch reuses its sequence numbers and Pebble's WAL reader drops it on reopen")
 		}
 	} else {
 		c.und("seq-per-record", "flushLocked", "", "anchor not found")
